@@ -79,7 +79,8 @@ pub fn tracegen_only(prop: &str, seed: u64, runs: usize, only: Option<usize>) ->
                 prop,
                 run,
                 s,
-                Knobs { allow_random: true, p_reset: 0.12, big_consts: run % 3 == 0, max_virtuals: 1, p_x: 0.05, p_c: 0.05, max_depth: 3, p_while: 0.04, ..Knobs::control_flow() },
+                Knobs { allow_random: true, p_reset: 0.12, big_consts: run % 3 == 0, max_virtuals: if run % 4 == 1 { 2 } else { 1 }, random_in_declares: run % 4 == 1, p_x: 0.05, p_c: 0.05, max_depth: 3, p_while: 0.04,
+                        ..Knobs::control_flow() },
                 Opt::default(),
             ),
             "C20" => {
@@ -886,10 +887,10 @@ fn sched_run(prop: &str, run: usize, seed: u64) -> Vec<J> {
                 stop = nerr[k] >= 2;
                 json!({"k":"err","class":"driver","id":id})
             }
-            Ok(Some(Err(IterationError::Runtime(_)))) => {
+            Ok(Some(Err(IterationError::Runtime(e)))) => {
                 nerr[k] += 1;
                 stop = nerr[k] >= 2;
-                json!({"k":"err","class":"runtime","id":0})
+                json!({"k":"err","class":"runtime","id":0,"why":runtime_why(&format!("{e:?}"))})
             }
             Ok(Some(Ok(row))) => row_to_spec(row),
         };
@@ -932,7 +933,7 @@ fn sched_run(prop: &str, run: usize, seed: u64) -> Vec<J> {
                     Err(p) => json!({"k":"panic","msg":p}),
                     Ok(None) => json!({"k":"none"}),
                     Ok(Some(Err(IterationError::Driver(DrvErr(id))))) => json!({"k":"err","class":"driver","id":id}),
-                    Ok(Some(Err(IterationError::Runtime(_)))) => json!({"k":"err","class":"runtime","id":0}),
+                    Ok(Some(Err(IterationError::Runtime(e)))) => json!({"k":"err","class":"runtime","id":0,"why":runtime_why(&format!("{e:?}"))}),
                     Ok(Some(Ok(row))) => row_to_spec(row),
                 };
                 let vars_j: Vec<J> = if item.is_ok() {
@@ -971,13 +972,19 @@ fn sched_run(prop: &str, run: usize, seed: u64) -> Vec<J> {
         Ok(Err(_)) => out.push(json!({"ev":"try_iter_static","run":run,"it":9,"res":{"k":"static_err"}})),
         Ok(Ok(mut sit)) => {
             out.push(json!({"ev":"try_iter_static","run":run,"it":9,"res":{"k":"ok"}}));
+            let mut sseq: Vec<J> = vec![];
+            let mut serrs = 0;
             for _ in 0..40 {
                 let item = guarded(|| sit.next());
                 let rng = rng_to_spec();
                 let (j, stop) = match item {
                     Err(p) => (json!({"k":"panic","msg":p}), true),
                     Ok(None) => (json!({"k":"none"}), true),
-                    Ok(Some(Err(_))) => (json!({"k":"err"}), true),
+                    // the iteration goes on after an error item, as the dynamic one does (at most twice)
+                    Ok(Some(Err(_))) => {
+                        serrs += 1;
+                        (json!({"k":"err"}), serrs >= 2)
+                    }
                     Ok(Some(Ok(row))) => (
                         json!({"k":"row","line":row.line,
                             "inputs":row.inputs.iter().map(|i| json!({"s": i.signal.name, "v": ival(i.value).to_spec(), "ch": i.changed})).collect::<Vec<_>>(),
@@ -985,11 +992,30 @@ fn sched_run(prop: &str, run: usize, seed: u64) -> Vec<J> {
                         false,
                     ),
                 };
+                sseq.push(match j["k"].as_str().unwrap_or("") {
+                    "row" => json!({"k":"row","line":j["line"],"inputs":j["inputs"],"expected":j["expected"]}),
+                    k => json!({"k":k,"line":0,"inputs":[],"expected":[]}),
+                });
                 out.push(json!({"ev":"next_static","run":run,"it":9,"rng":rng,"item":j}));
                 if stop {
                     break;
                 }
             }
+            // C15, differential (two real runs): the static items against the first dynamic iterator's items, position by
+            // position, as far as the dynamic run was not disturbed by its driver (TLC evaluates StaticAgrees on the two lists)
+            let dseq: Vec<J> = items_of_first
+                .iter()
+                .map(|x| {
+                    let it = &x["item"];
+                    match it["k"].as_str().unwrap_or("") {
+                        "row" => json!({"k":"row","line":it["line"],"inputs":it["inputs"],"why":"",
+                            "expected":it["outputs"].as_array().map(|a| a.iter().map(|o| json!({"s":o["s"],"v":o["exp"]})).collect::<Vec<_>>()).unwrap_or_default()}),
+                        "err" => json!({"k":"err","line":0,"inputs":[],"expected":[],"why":it.get("why").and_then(|w| w.as_str()).unwrap_or("driver")}),
+                        k => json!({"k":k,"line":0,"inputs":[],"expected":[],"why":""}),
+                    }
+                })
+                .collect();
+            out.push(json!({"ev":"static_dynamic","run":run,"sseq":sseq,"dseq":dseq}));
         }
     }
     verif::set_seed_override(None);
@@ -1299,7 +1325,7 @@ fn scale_run(wl: &str, run: usize, seed: u64) -> Vec<J> {
             max_rows = 1100;
             (header, supplied, prog)
         }
-        "noout" | "emptylayout" | "noin" => {
+        "noout" | "emptylayout" | "noin" | "emptyfault" => {
             // degenerate shapes: a device without outputs, a driver that reports nothing, a device without inputs
             let mut supplied = vec![];
             if fam != "noin" {
@@ -1362,8 +1388,13 @@ fn scale_run(wl: &str, run: usize, seed: u64) -> Vec<J> {
     let test = Test { header, supplied, prog };
     let printed = print_test(&test.header, &test.prog, &layout);
     let mut spec = policy_for(&test, &opt, seed, &mut rng, 6);
-    if fam == "emptylayout" {
+    if fam == "emptylayout" || fam == "emptyfault" {
         spec.layout.clear();
+    }
+    if fam == "emptyfault" {
+        // a driver that reports nothing at first and deviates from that later (one more output, an error)
+        let at = 1 + variant % 4;
+        spec.fault = Some((at, match variant % 3 { 0 => Fault::Add, 1 => Fault::Error(7 + variant as u32), _ => Fault::Add }));
     }
     if fam == "manysigs" || fam == "manyvirt" || fam == "latefault" || fam == "longfeedback" {
         spec.mode = opt.mode;
